@@ -882,6 +882,41 @@ theorem from_usize_ok_iff (t : Num.IntTy) (n : Nat) (hn : n ≤ usizeMax) :
   refine ⟨Num.fromUsize_isSome_iff t n hn', by decide, by decide, by decide, by decide, by decide,
     by decide, by decide, by decide, by decide, by decide, by decide, by decide⟩
 
+/-- **The named convenience methods** (`Tensor::{range, range_mut, range_owned, mask, mask_mut,
+    mask_owned}` and the same six of `TensorView`; the `@ named` cases): `Ok` exactly on the
+    arguments `validRangeFrom` / `validMaskFrom` accept, and then the view is total with the
+    shape obtained by clipping the table of the given ranges dimension by dimension. -/
+theorem named_methods_spec (src : TView ν) (hsrc : src.WF) (named : List (ν × IndexRange)) :
+    (IsOk (rangeFrom Arith.fixed src named) ↔ validRangeFrom src.shape named = true) ∧
+    (IsOk (maskFrom Arith.fixed src named) ↔ validMaskFrom src.shape named = true) ∧
+    (∀ v, rangeFrom Arith.fixed src named = .ok (.ok v) → v.WF ∧
+      v.shape = rangeShape src.shape (defaultRanges src.shape (namedTable src.shape named))) ∧
+    (∀ v, maskFrom Arith.fixed src named = .ok (.ok v) → v.WF ∧
+      v.shape = maskShape src.shape (defaultMasks (namedTable src.shape named))) := by
+  have h1 := rangeFrom_ok_iff src hsrc named
+  have h2 := maskFrom_ok_iff src hsrc named
+  refine ⟨h1, h2, ?_, ?_⟩
+  · intro v hv
+    have hvalid := h1.mp ⟨v, hv⟩
+    simp only [validRangeFrom, Bool.and_eq_true] at hvalid
+    rw [(named_eq_positional src hsrc named hvalid.1).1] at hv
+    rcases rangeFromAll_spec src hsrc _ (namedTable_length _ _) with ⟨w, hw, hwf, hshape, _⟩ | ⟨he, _⟩
+    · rw [hv] at hw
+      simp only [Outcome.ok.injEq, Except.ok.injEq] at hw
+      subst hw
+      exact ⟨hwf, hshape⟩
+    · rw [hv] at he; simp at he
+  · intro v hv
+    have hvalid := h2.mp ⟨v, hv⟩
+    simp only [validMaskFrom, Bool.and_eq_true] at hvalid
+    rw [(named_eq_positional src hsrc named hvalid.1).2.1] at hv
+    rcases maskFromAll_spec src hsrc _ (namedTable_length _ _) with ⟨w, hw, hwf, hshape, _⟩ | ⟨he, _⟩
+    · rw [hv] at hw
+      simp only [Outcome.ok.injEq, Except.ok.injEq] at hw
+      subst hw
+      exact ⟨hwf, hshape⟩
+    · rw [hv] at he; simp at he
+
 /-! ## 14. The fallible layer adds nothing beyond the view semantics -/
 
 /-- **One bridging lemma.**  A matrix view whose getter answers, for every index, the cell a
@@ -916,6 +951,15 @@ theorem matrix_views_total_from_view_semantics (e : MExpr) (hle : e.LeavesOk)
     rw [e.cell_none i j hn] at h
     simp at h
   · exact e.cell_some i j
+
+/-- The same bridge for tensor views: a getter that answers, for every index tuple of the view's
+    arity, the cell a specification designates — `Some` exactly inside the shape (the form of
+    C02's `view_get_eq_spec` / `view_get_some_iff_inBounds`) — is total in C16's sense. -/
+theorem tensor_total_of_get_eq_spec (v : TView ν) (cell : List Nat → Option Nat)
+    (hget : ∀ idx, idx.length = v.shape.length → v.get idx = .ok (cell idx))
+    (hsome : ∀ idx, idx.length = v.shape.length →
+      (cell idx).isSome = Spec.inBounds (v.shape.map (·.2)) idx) : v.Total :=
+  fun idx hlen => ⟨cell idx, hget idx hlen, hsome idx hlen⟩
 
 /-- Non-vacuity: a reversed clipped range over a part of a partition is such a composition. -/
 example : (MExpr.reverse (MExpr.range (MExpr.part 4 5 [1, 3] [2] 1 1) ⟨0, 2⟩ ⟨1, usizeMax⟩) true false).LeavesOk ∧
